@@ -1,12 +1,14 @@
 package gen
 
 import (
+	"encoding/hex"
 	"encoding/json"
 	"fmt"
 	"runtime"
 	"time"
 
 	sdk "github.com/cosmos/cosmos-sdk/types"
+	authtx "github.com/cosmos/cosmos-sdk/x/auth/tx"
 
 	"verif/harness/chain"
 	"verif/harness/internal/common"
@@ -40,17 +42,9 @@ func Reexecute(t *chain.Trace, file, family string, withMonitors bool, restartAf
 				g.Rec.Begin(0, tm)
 			}
 		case chain.KindMsg:
-			var msgs []sdk.Msg
-			all := append([]chain.TraceMsg{}, it.More...)
-			if it.TraceMsg != nil {
-				all = append([]chain.TraceMsg{*it.TraceMsg}, all...)
-			}
-			for _, tm := range all {
-				m, err := chain.MsgFromJSON(tm.TypeURL, tm.Raw)
-				if err != nil {
-					return g, fmt.Errorf("item %d: %v", it.Seq, err)
-				}
-				msgs = append(msgs, m)
+			msgs, err := itemMsgs(it)
+			if err != nil {
+				return g, fmt.Errorf("item %d: %v", it.Seq, err)
 			}
 			if g.Chk != nil && len(msgs) == 1 {
 				g.Do(msgs[0], it.Note)
@@ -95,6 +89,37 @@ func Reexecute(t *chain.Trace, file, family string, withMonitors bool, restartAf
 	}
 	g.Rec.Finish()
 	return g, nil
+}
+
+var replayTxCfg = authtx.NewTxConfig(chain.SharedCodec(), authtx.DefaultSignModes)
+
+// itemMsgs recovers the messages of a msg item: from the exact tx bytes if present (the proto JSON
+// form cannot carry every message: jsonpb refuses durations beyond ~292 years), else from the raw JSON.
+func itemMsgs(it chain.Item) ([]sdk.Msg, error) {
+	if it.TxHex != "" {
+		bz, err := hex.DecodeString(it.TxHex)
+		if err != nil {
+			return nil, err
+		}
+		tx, err := replayTxCfg.TxDecoder()(bz)
+		if err != nil {
+			return nil, err
+		}
+		return tx.GetMsgs(), nil
+	}
+	var msgs []sdk.Msg
+	all := append([]chain.TraceMsg{}, it.More...)
+	if it.TraceMsg != nil {
+		all = append([]chain.TraceMsg{*it.TraceMsg}, all...)
+	}
+	for _, tm := range all {
+		m, err := chain.MsgFromJSON(tm.TypeURL, tm.Raw)
+		if err != nil {
+			return nil, err
+		}
+		msgs = append(msgs, m)
+	}
+	return msgs, nil
 }
 
 func (g *G) restartQuiet() {
